@@ -3,6 +3,9 @@
 package eval
 
 import (
+	"errors"
+
+	"github.com/cedar-policy/cedar-go/internal"
 	"github.com/cedar-policy/cedar-go/internal/vrt"
 	"github.com/cedar-policy/cedar-go/types"
 	"github.com/cedar-policy/cedar-go/x/exp/ast"
@@ -284,3 +287,28 @@ const (
 	VLeafMinLong   = leafMinLong
 	VLeafSmallLong = leafSmallLong
 )
+
+// VErrClass classifies an evaluation error by its sentinel.
+func VErrClass(err error) string {
+	switch {
+	case err == nil:
+		return ""
+	case errors.Is(err, ErrType), errors.Is(err, internal.ErrNotComparable):
+		return "type"
+	case errors.Is(err, errOverflow):
+		return "overflow"
+	case errors.Is(err, errAttributeAccess):
+		return "attr"
+	case errors.Is(err, errTagAccess):
+		return "tag"
+	case errors.Is(err, errEntityNotExist), errors.Is(err, errUnspecifiedEntity):
+		return "entity"
+	case errors.Is(err, errArity):
+		return "arity"
+	case errors.Is(err, errUnknownExtensionFunction):
+		return "unknown-fn"
+	case errors.Is(err, internal.ErrDecimal), errors.Is(err, internal.ErrDatetime), errors.Is(err, internal.ErrDuration), errors.Is(err, internal.ErrIP), errors.Is(err, internal.ErrDurationRange):
+		return "ext"
+	}
+	return "other"
+}
